@@ -350,6 +350,48 @@ def decimal_sum_stream(ctx):
             ctx.oracle_failure(info, fails, {})
 
 
+def infinity_prune_stream(ctx):
+    """Saturated (+inf) pixels: a leaf that peaks at +inf above a finite level rises by more than any min_delta, an
+    infinite plateau measured against its own level does not rise at all.  When every leaf already meets min_delta
+    prune changes nothing; afterwards every leaf with a parent meets it; the same prune again changes nothing."""
+    from astrodendro import Dendrogram
+    rng = ctx.rng('c07-inf')
+
+    def rise(s):
+        d_ = float(s.height) - float(s.parent.height)
+        return 0.0 if d_ != d_ else d_
+    for it in range(150 if ctx.quick else 1500):
+        shape = rng.choice([(rng.randint(4, 10),), (3, 4), (2, 6)])
+        n = int(np.prod(shape))
+        vals = [rng.choice([1.0, 2.0, 3.0, 4.0, 6.0, np.inf, np.inf]) for _ in range(n)]
+        if not any(np.isfinite(v) for v in vals):
+            vals[0] = 1.0
+        arr = np.array(vals).reshape(shape)
+        delta = rng.choice([1, 2, 3, 1000])
+        info = {'stream': 'infinite pixels', 'shape': list(shape), 'data': repr(vals), 'min_delta': delta}
+        fails = []
+        try:
+            d = Dendrogram.compute(arr.copy(), min_value=0)
+            met = all(rise(s) >= delta for s in d.leaves if s.parent is not None)
+            before = impl.impl_hierarchy(d, shape)
+            d.prune(min_delta=delta)
+            after = impl.impl_hierarchy(d, shape)
+            bad = [int(s.idx) for s in d.leaves if s.parent is not None and not rise(s) >= delta]
+            if met and before != after:
+                fails.append('every leaf already rose by min_delta=%r above its parent, yet prune changed the tree: %s -> %s' % (delta, before, after))
+            if bad:
+                fails.append('after prune(min_delta=%r) the leaves %s rise less than that above their parent' % (delta, bad))
+            d.prune(min_delta=delta)
+            if impl.impl_hierarchy(d, shape) != after:
+                fails.append('pruning again with min_delta=%r changes the tree' % delta)
+        except Exception as e:
+            fails.append('raised %r' % (e,))
+        ctx.count('infinite_pixel_prunes')
+        ctx.case_done(None, ('c07-inf', repr(vals), shape, delta))
+        if fails:
+            ctx.oracle_failure(info, fails[:3], {})
+
+
 def float32_sum_stream(ctx):
     """min_sum on single-precision data: one pixel of 2**24 and a few small ones, the threshold next to their exact sum.
     After prune(is_independent=min_sum(T)) every leaf must really sum to at least T, and the result must be what
@@ -367,7 +409,16 @@ def float32_sum_stream(ctx):
         info = {'stream': 'float32 sums', 'data': vals, 'min_sum': T}
         try:
             d = Dendrogram.compute(arr.copy(), min_value=0)
-            d.prune(is_independent=pruning.min_sum(T))
+            if rng.random() < 0.5:
+                d = dc.save_load(d, 'fits')              # FITS data come back big-endian ('>f4')
+                info['loaded_from'] = 'fits'
+            form = rng.choice(['function', 'list', 'generator', 'map'])
+            crit = pruning.min_sum(T)
+            try:
+                d.prune(is_independent={'function': crit, 'list': [crit], 'generator': (c_ for c_ in [crit]), 'map': map(lambda c_: c_, [crit])}[form])
+            except TypeError:
+                d.prune(is_independent=crit)             # refusing a one-shot iterable is no violation
+            info['criterion_given_as'] = form
             ref = Dendrogram.compute(arr.copy(), min_value=0, is_independent=pruning.min_sum(T))
         except Exception as e:
             ctx.oracle_failure(info, ['raised %r' % (e,)], {})
@@ -413,6 +464,7 @@ def trunk_order_stream(ctx):
 
 def explore(ctx):
     trunk_order_stream(ctx)
+    infinity_prune_stream(ctx)
     decimal_sum_stream(ctx)
     narrow_argument_stream(ctx)
     decimal_delta_stream(ctx)
